@@ -23,6 +23,106 @@ func init() {
 
 func c10() []*Ob {
 	return []*Ob{
+		{Prop: "C10", ID: "C10.8", Engine: "TABLE(format ranges)", Floor: 1,
+			Desc: "the hand-written parser of the \"2006-01-02 15:04:05\" format accepts what time.Parse accepts for it: the constant (from, to) ranges parseESTime checks its two-digit fields against are, as a multiset, month 1..12, day 1..31, hour 0..23 and twice 0..59 (minute, second) — a second field allowed up to 60 makes \"18:04:60\", which no supported format parses, a valid time that time.Date normalises to the next minute: the id carries an invented time instead of the receive time. The rule applies while parseESTime checks its fields through one range helper with constant bounds; a differently built parser is not judged by it",
+			Check: func(c *Ctx) {
+				fn := c.Fn("proxy/bulk.parseESTime")
+				if fn == nil {
+					return
+				}
+				got := map[[2]int64]int{}
+				n := 0
+				for _, f := range WithClosures(fn) {
+					for _, call := range CallsIn(f, nil) {
+						args := call.Common().Args
+						if len(args) < 3 {
+							continue
+						}
+						lo, ok1 := ConstInt(args[len(args)-2])
+						hi, ok2 := ConstInt(args[len(args)-1])
+						sl, isSlice := args[len(args)-3].(*ssa.Slice)
+						if !ok1 || !ok2 || !isSlice || sl.Low == nil || sl.High == nil {
+							continue
+						}
+						l, okl := ConstInt(sl.Low)
+						h, okh := ConstInt(sl.High)
+						if !okl || !okh || h-l != 2 {
+							continue // only the two-digit fields
+						}
+						n++
+						got[[2]int64{lo, hi}]++
+					}
+				}
+				if n < 5 {
+					c.Site(fn.Pos(), "parseESTime does not check its fields through a range helper with constant bounds (%d such calls): this rule does not apply", n)
+					return
+				}
+				want := map[[2]int64]int{{1, 12}: 1, {1, 31}: 1, {0, 23}: 1, {0, 59}: 2}
+				okAll := len(got) == len(want)
+				for k, v := range want {
+					if got[k] != v {
+						okAll = false
+					}
+				}
+				if okAll {
+					c.Site(fn.Pos(), "parseESTime checks month 1..12, day 1..31, hour 0..23, minute and second 0..59")
+				} else {
+					c.Violation("table:parseESTime:ranges", fn.Pos(), "parseESTime checks its two-digit fields against %v, not against month 1..12, day 1..31, hour 0..23, minute 0..59, second 0..59: it accepts a time none of the supported formats denotes (or rejects one they accept)", got)
+				}
+			}},
+		{Prop: "C10", ID: "C10.9", Engine: "LOOPS(until end of line)", Floor: 1,
+			Desc: "an over-size line is skipped to its end: in esBulkDocReader.readDoc the ReadLine that discards the rest of a line sits in a loop that goes on while ReadLine still reports a prefix (isPrefix) — discarding one more buffer only leaves the tail of a line longer than twice the limit to be read as the next action line: the request is rejected, or the framing shifts and the neighbours of the over-size line are not stored",
+			Check: func(c *Ctx) {
+				fn := c.Fn("(*proxyapi.esBulkDocReader).readDoc")
+				if fn == nil {
+					return
+				}
+				rl := Callee("(*bufio.Reader).ReadLine")
+				// the discarding loop may sit in readDoc or in a private helper it calls
+				hosts := []*ssa.Function{fn}
+				for _, call := range CallsIn(fn, nil) {
+					if h := StaticCallee(call); h != nil && h.Blocks != nil && c.P.InRepo(h) && len(CallsIn(h, rl)) > 0 {
+						hosts = append(hosts, h)
+					}
+				}
+				var calls []ssa.CallInstruction
+				for _, h := range hosts {
+					calls = append(calls, CallsIn(h, rl)...)
+				}
+				if len(calls) == 0 {
+					c.Undecided("loops:readDoc:noreadline", fn.Pos(), "readDoc no longer reads with bufio.Reader.ReadLine")
+					return
+				}
+				isPrefixOf := func(v ssa.Value) bool {
+					return DerivesFrom(v, func(x ssa.Value) bool {
+						e, ok := x.(*ssa.Extract)
+						if !ok || e.Index != 1 {
+							return false
+						}
+						cl, ok := e.Tuple.(ssa.CallInstruction)
+						return ok && rl(cl)
+					})
+				}
+				ok := false
+				for _, call := range calls {
+					for _, l := range Loops(call.Parent()) {
+						if !l.Blocks[call.(ssa.Instruction).Block()] {
+							continue
+						}
+						// the loop goes on while the line is not finished: some exit or continuation test of the loop is the prefix flag
+						for b := range l.Blocks {
+							if iff, isIf := b.Instrs[len(b.Instrs)-1].(*ssa.If); isIf && isPrefixOf(iff.Cond) {
+								ok = true
+							}
+						}
+					}
+				}
+				if ok {
+					c.Site(calls[0].Pos(), "the rest of an over-size line is read away in a loop on the prefix flag")
+				} else {
+					c.Violation("loops:readDoc:skip-to-end-of-line", calls[0].Pos(), "readDoc does not read an over-size line away in a loop on ReadLine's prefix flag: a line longer than two buffers leaves a tail that is taken for the next line")
+				}
+			}},
 		{Prop: "C10", ID: "C10.6", Engine: "PATHSIM(ACK)", Floor: 3,
 			Desc:  "nothing is acknowledged that no store accepted: StoreDocuments, storeDocs and sendBulkToStores have no success return on a path whose last attempt failed or on which no attempt was made (shared rule with C09.3) — a bulk whose context ended between attempts would otherwise be answered 200 with every document 'created'",
 			Check: shared("C09.3")},
